@@ -331,7 +331,8 @@ def run_history(sc, ops):
         elif op["op"] == "exec":
             sel = anc_closure(sc, op["T"])
             rec["out"] = attempt(lambda: d.executor(target_nodes=ids(op["T"]))(*op["args"]))
-            rec["line"] = len(lines); lines.append("O %d call %d %s %d %s" % (inst, len(sel), " ".join(map(str, sel)), len(op["args"]),
+            # the model computes the selection itself from the targets (GM.selectNodes)
+            rec["line"] = len(lines); lines.append("O %d execT %d %s %d %s" % (inst, len(op["T"]), " ".join(map(str, op["T"])), len(op["args"]),
                                                    " ".join(enc(a) for a in op["args"])))
         elif op["op"] == "xmk":
             T = op["T"]
@@ -376,7 +377,11 @@ def run_history(sc, ops):
             T = op["T"]
             sel = setups if T is None else [i for i in anc_closure(sc, T) if sc["specs"][i]["setup"]]
             rec["out"] = attempt(lambda: d.setup() if T is None else d.setup(target_nodes=ids(T)))
-            rec["line"] = len(lines); lines.append("O %d setup %d %s" % (inst, len(sel), " ".join(map(str, sel))))
+            rec["line"] = len(lines)
+            if T is None:
+                lines.append("O %d setup %d %s" % (inst, len(sel), " ".join(map(str, sel))))
+            else:
+                lines.append("O %d setupT %d %s" % (inst, len(T), " ".join(map(str, T))))
         elif op["op"] == "fork":
             I.add(copy.deepcopy(d))
             rec["out"] = ("FORK",)
